@@ -1,5 +1,6 @@
 import Hoot.Model.Uri
 import Hoot.Proofs.FlowWF
+import Hoot.Props.C09
 
 /-! # C10 — the connection-reuse verdict is exactly the disjunction of the close conditions
 
@@ -194,6 +195,61 @@ theorem C10_step (hack : Bool) (f : Flow) (op : Op) (hwf : f.WF) (r : CloseReaso
     cases op <;> simp [notOffered] <;> (repeat' split) <;> simp_all
   · unfold stepCleanup
     cases op <;> simp [notOffered]
+
+/-- some step of the history is one of the three close events (evaluated in the flow it is applied to) -/
+def eventsAlong (hack : Bool) (f : Flow) : List Op → CloseReason → Prop
+  | [], _ => False
+  | op :: ops, r => closeEvent hack f op r ∨ eventsAlong hack (f.step hack op).1 ops r
+
+/-- **C10 (history).** After any sequence of permitted calls the recorded reasons are exactly those
+    recorded at the start together with the close events that happened along the way: the verdict
+    "must close" is the disjunction of the construction-time conditions and those events — nothing is
+    ever dropped, nothing else is ever added. -/
+theorem C10_history (hack : Bool) (ops : List Op) : ∀ (f : Flow), f.WF → okAlong hack f ops → ∀ r : CloseReason,
+    (r ∈ (runOps hack f ops).1.closeReasons ↔ r ∈ f.closeReasons ∨ eventsAlong hack f ops r) := by
+  induction ops with
+  | nil => intro f _ _ r; simp [runOps, eventsAlong]
+  | cons op ops ih =>
+    intro f hwf hok r
+    obtain ⟨_, h2⟩ := wf_step hack f op hwf hok.1
+    have hstep := C10_step hack f op hwf r
+    have hrest := ih (f.step hack op).1 h2 hok.2 r
+    simp only [runOps, eventsAlong]
+    rw [hrest, hstep]
+    constructor
+    · rintro ((h | h) | h)
+      · exact Or.inl h
+      · exact Or.inr (Or.inl h)
+      · exact Or.inr (Or.inr h)
+    · rintro (h | h | h)
+      · exact Or.inl (Or.inl h)
+      · exact Or.inl (Or.inr h)
+      · exact Or.inr h
+
+/-- **C10 (whole life of a flow).** For a flow built from a request and driven by any permitted history:
+    must-close at the end iff the request is HTTP/1.0, or carries `Connection: close`, or one of the close
+    events happened. -/
+theorem C10_life (hack : Bool) (m : Method) (v : Version) (u : Uri) (orig : List Hdr) (ops : List Op)
+    (hok : okAlong hack (Flow.new m v u orig) ops) :
+    ((runOps hack (Flow.new m v u orig) ops).1.closeReasons ≠ [] ↔
+      v = .h10 ∨ hasHdr orig "connection" "close" = true ∨ ∃ r, eventsAlong hack (Flow.new m v u orig) ops r) := by
+  have hh := C10_history hack ops (Flow.new m v u orig) (C09_init m v u orig) hok
+  constructor
+  · intro hne
+    obtain ⟨r, hr⟩ := List.exists_mem_of_ne_nil _ hne
+    rcases (hh r).mp hr with h | h
+    · rcases (C10_initial m v u orig r).mp h with ⟨_, hv⟩ | ⟨_, hc⟩
+      · exact Or.inl hv
+      · exact Or.inr (Or.inl hc)
+    · exact Or.inr (Or.inr ⟨r, h⟩)
+  · intro h
+    have : ∃ r, r ∈ (runOps hack (Flow.new m v u orig) ops).1.closeReasons := by
+      rcases h with hv | hc | ⟨r, hr⟩
+      · exact ⟨.http10, (hh _).mpr (Or.inl ((C10_initial m v u orig _).mpr (Or.inl ⟨rfl, hv⟩)))⟩
+      · exact ⟨.clientClose, (hh _).mpr (Or.inl ((C10_initial m v u orig _).mpr (Or.inr ⟨rfl, hc⟩)))⟩
+      · exact ⟨r, (hh r).mpr (Or.inr hr)⟩
+    obtain ⟨r, hr⟩ := this
+    intro e; rw [e] at hr; cases hr
 
 /-- **C10 (capacity).** The list never needs more than the five slots it has. -/
 theorem C10_cap (f : Flow) (hwf : f.WF) : f.closeReasons.length ≤ 5 := nodup_length_le_5 _ hwf.nodup
